@@ -7,6 +7,11 @@
         a Lean-side session: a fresh reference target on the scenario, brought to the state the real `open()`
         left it in by replaying the frames the real driver emitted (`pre`), the driver state after `open()`,
         and the tag database computed from the project.
+    ld.open BASE LOGIX (cfg (path (s ..)) (inittags b) (progtags b) (rnd (b 16 hex digits)) (faults FAULT…))
+        a self-contained Lean-side session: a fresh reference target on the scenario and a fresh driver on which
+        `Opn.openLogixSt` (= `LogixDriver.open()`) runs; nothing is taken from the real driver.
+        -> ok (result (ok T|F)|(raise exn)) (frames (b ..)…) (drv …) (ldrv …)
+    ld.tagdbof T|F     `Drv.tagDbOf` (program tags on / off) of the project held by the session's target, as `ld.tags` prints it
     ld.tags            the tag database, canonically
     ld.read (s tag)…   -> ok (tags …)|(raise exn) (frames (b ..)…)
     ld.write ((s tag) VALUE)…
@@ -14,12 +19,14 @@
 -/
 import PycommModel.OpsClient
 import PycommModel.Logix.Driver
+import PycommModel.Logix.Open
 namespace Pycomm
 open Sexp Tgt Lgx
 
 structure LdSession where
   w : Cli.World Ext
   cfg : Drv.Cfg
+  ldrv : Option Opn.LDrv := none       -- sessions made by `ld.open`: the LogixDriver state `open()` left
 
 /-! ### rendering -/
 
@@ -138,6 +145,70 @@ def ldNew : List Sexp → Option LdSession ⊕ String
       | _, _ => .inr "bad-args"
   | _ => .inr "bad-args"
 
+
+/-! ### `ld.open`: the Lean-side `LogixDriver.open()` -/
+
+def renderNames (xs : List Name) : String := " ".intercalate (xs.map fun n => (Sexp.ofName n).render)
+
+def renderOptNames : Option (List Name) → String
+  | none => "N"
+  | some xs => "(" ++ renderNames xs ++ ")"
+
+/-- (info PLC (name …) (programs …) (tasks …) (modules …)) -/
+def renderInfo (i : Opn.Info) : String :=
+  "(info " ++ (PyVal.dict i.plc).toSexp.render ++ " (name " ++ (match i.name with | some n => (Sexp.ofName n).render | none => "N") ++ ") (programs " ++
+    (match i.programs with
+     | none => "N"
+     | some ps => " ".intercalate (ps.map fun p => "(" ++ (Sexp.ofName p.1).render ++ s!" {p.2.instanceId} (" ++ renderNames p.2.routines ++ "))")) ++
+    ") (tasks " ++
+    (match i.tasks with
+     | none => "N"
+     | some ts => " ".intercalate (ts.map fun t => "(" ++ (Sexp.ofName t.1).render ++ s!" {t.2})")) ++
+    ") (modules " ++
+    (match i.modules with
+     | none => "N"
+     | some ms => " ".intercalate (ms.map fun m => "(" ++ (Sexp.ofName m.1).render ++ " (slots " ++
+         " ".intercalate (m.2.slots.map fun s => s!"({s.1} " ++ renderNames s.2 ++ ")") ++ ") (types " ++ renderOptNames m.2.types ++
+         ") (unknown " ++ renderOptNames m.2.unknown ++ "))")) ++ "))"
+
+def renderMeta (x : Name × Opn.TagMeta) : String :=
+  let m := x.2
+  "(" ++ (Sexp.ofName x.1).render ++ " " ++ renderBool m.alias ++ s!" {m.instanceId} {m.symbolAddress} {m.symbolObjectAddress} {m.softwareControl} " ++
+    (Sexp.ofName m.externalAccess).render ++ " " ++ renderOptNat m.templateInstanceId ++ " " ++ renderOptNat m.bitPosition ++ ")"
+
+def renderLDrv (l : Opn.LDrv) : String :=
+  "(ldrv (micro800 " ++ renderBool l.micro800 ++ ") (useids " ++ renderBool l.useInstanceIds ++ ") (cacheleft " ++ renderBool l.cacheLeft ++ ") " ++
+    renderInfo l.info ++ " (datatypes " ++ renderNames l.dataTypes ++ ") (metas " ++ " ".intercalate (l.metas.map renderMeta) ++ "))"
+
+def renderDrv (d : Cli.Drv) : String :=
+  "(drv (session " ++ renderOptNat d.session ++ ") (opened " ++ renderBool d.connectionOpened ++ ") (connected " ++ renderBool d.targetIsConnected ++
+    ") (cid " ++ (match d.targetCid with | some b => (Sexp.ofBytes b).render | none => "N") ++ ") (extfo " ++ renderBool d.extendedFo ++
+    s!") (connsize {d.connectionSize}) (seq {d.seqVal}) (route " ++
+    (match Path.encEpath true d.cipPath true true with | .ok b => (Sexp.ofBytes b).render | .error _ => "E") ++ "))"
+
+def ldOpen : List Sexp → Option LdSession × String
+  | [b, l, .list (.atom "cfg" :: fs)] =>
+      match targetNew [b, l] with
+      | none => (none, "err bad-target")
+      | some t0 =>
+          let get (k : String) := field? k fs
+          let faults : Option (List Cli.Fault) := match fs.find? (fun f => match f with | .list (.atom "faults" :: _) => true | _ => false) with
+            | some (.list (_ :: xs)) => xs.mapM fault?
+            | _ => some []
+          match (get "path").bind Sexp.name?, (get "inittags").bind bool?, (get "progtags").bind bool?, (get "rnd").bind Sexp.bytes?, faults with
+          | some path, some initTags, some progTags, some rnd, some fl =>
+              -- LogixDriver._auto_slot_cip_path = True
+              match Path.parseConnectionPath path true with
+              | .error e => (none, "err " ++ e.render)
+              | .ok (_, _, cip) =>
+                  let w0 : Cli.World Ext := { drv := { cipPath := cip }, net := { target := t0, faults := fl } }
+                  let (w, ld, r) := Opn.openLogixSt hookAll { initTags := initTags, initProgramTags := progTags } w0 {} rnd
+                  (some { w := w, cfg := ld.cfg, ldrv := some ld },
+                   "ok (result " ++ (match r with | .ok b => "(ok " ++ renderBool b ++ ")" | .error e => "(raise " ++ e.render ++ ")") ++
+                     ") (frames " ++ " ".intercalate (w.net.sent.map fun f => (Sexp.ofBytes f).render) ++ ") " ++ renderDrv w.drv ++ " " ++ renderLDrv ld)
+          | _, _, _, _, _ => (none, "err bad-cfg")
+  | _ => (none, "err bad-args")
+
 def ldTags (s : LdSession) : String :=
   "ok (cfg " ++ renderBool s.cfg.useInstanceIds ++ " " ++ renderBool s.cfg.micro800 ++ ") (tags " ++
     " ".intercalate (s.cfg.tags.map fun x => "(" ++ (Sexp.ofName x.1).render ++ " " ++ renderTagInfo x.2 ++ ")") ++ ")"
@@ -169,6 +240,22 @@ def dispatchLd (ld : Option LdSession) (op : String) (args : List Sexp) : Option
       match ldNew args with
       | .inl s => (s, "ok")
       | .inr why => (ld, "err " ++ why)
+  | "ld.open", _ =>
+      match ldOpen args with
+      | (some s, out) => (some s, out)
+      | (none, out) => (ld, out)
+  | "ld.tagdbof", some s =>
+      -- `Drv.tagDbOf` of the project the session's target holds, in the form of `ld.tags`
+      match args, s.w.net.target.ext.logix with
+      | [b], some st =>
+          match bool? b with
+          | none => (ld, "bad-args")
+          | some prog =>
+              match Drv.tagDbOf st.proj prog with
+              | none => (ld, "none")
+              | some db => (ld, ldTags { s with cfg := { s.cfg with tags := db } })
+      | _, _ => (ld, "bad-args")
+  | "ld.drv", some s => (ld, "ok " ++ renderDrv s.w.drv)
   | "ld.tags", some s => (ld, ldTags s)
   | "ld.read", some s => let (s', out) := ldRead s args; (some s', out)
   | "ld.write", some s => let (s', out) := ldWrite s args; (some s', out)
